@@ -13,7 +13,13 @@ func init() {
 		Rule: "same session generator as C08 (different random stream); non-trivial = at least one op hits a line of the starting file; distinct by op line"})
 }
 
-func genC15(g *Gen, n int) { edGenCommon(g, n, 15) }
+func genC15(g *Gen, n int) {
+	edGenCommon(g, n, 15)
+	// the histories of the twin sweep (see c15TwinSweep), compared with the model as whole sessions
+	for _, h := range c15TwinSessions() {
+		g.Emit(edSessionLine(false, h.file, h.ops), true, "twin-sweep")
+	}
+}
 
 // edPlaceholders reports cleared entries left in the typed lists after Cleanup.
 func edPlaceholders(run *edRun) string {
@@ -318,7 +324,95 @@ func c15RationaleSweep(g *Gen) {
 	}
 }
 
+// c15TwinSweep - input class "keys that are equal under semver.Compare but different strings" (v and v+incompatible,
+// see edTwin), exhaustive on a small scope and independent of the random stream: every combination of spelling for
+// the two bounds of an AddRetract (plain/plain, plain/tagged, tagged/plain, tagged/tagged) under a module path without
+// major suffix, with /v2, and without module line, in every placement of the new line (first retraction, joins a
+// line, joins a block, fills an empty block, joins a retraction that already has the twin bounds), followed by the
+// later operations of the session that have to see it: DropRetract of the interval read as a single version (what a
+// file showing only one bound would say; a no-op while list and file agree), then DropRetract of the interval itself.
+// The same for AddExclude / AddReplace of both spellings of one version and the Drop of one of them. The clause is
+// checked after every Cleanup (each prefix is its own session). Missing before: no pool held both spellings of one
+// version for the same module path, so "same version" and "same string" coincided on every generated key.
+func c15TwinSweep(g *Gen) {
+	seen := map[string]bool{}
+	for _, h := range c15TwinSessions() {
+		for k := range h.ops {
+			if h.ops[k].Name != "cleanup" {
+				continue
+			}
+			g.Case("c15-session:twin-sweep")
+			sig, info := edCheckC15(false, h.file, h.ops[:k+1])
+			if sig == "" || seen[sig] {
+				continue
+			}
+			seen[sig] = true
+			g.Fail(sig, info+" || file: "+strings.ReplaceAll(h.file, "\n", "\\n"), edSessionLine(false, h.file, h.ops[:k+1]))
+		}
+	}
+}
+
+type c15Session struct {
+	file string
+	ops  []edOp
+}
+
+// c15TwinSessions lists the histories of the twin sweep (also sent through the model correspondence by genC15).
+func c15TwinSessions() (out []c15Session) {
+	cl := edOp{Name: "cleanup"}
+	run := func(file string, ops []edOp) { out = append(out, c15Session{file, ops}) }
+	for _, m := range []struct{ head, v, other string }{
+		{"module example.com/m\n\ngo 1.21\n", "v1.0.0", "v1.4.0"},
+		{"module example.com/m/v2\n\ngo 1.21\n", "v2.0.0", "v2.1.0"},
+		{"go 1.21\n", "v0.3.0-rc.1", "v1.4.0"},
+	} {
+		t := edTwin(m.v)
+		for _, tail := range []string{
+			"",
+			"\nretract " + m.other + "\n",
+			"\nretract (\n\t" + m.other + "\n\t[" + m.v + ", " + m.other + "]\n)\n",
+			"\nretract ()\n",
+			"\nretract [" + m.v + ", " + t + "]\n",
+			"\nretract " + t + "\n",
+		} {
+			for _, b := range [][2]string{{m.v, t}, {t, m.v}, {t, t}, {m.v, m.v}} {
+				for _, rat := range []string{"", "published by mistake"} {
+					run(m.head+tail, []edOp{
+						{Name: "retract", A: []string{b[0], b[1], rat}}, cl,
+						{Name: "dropretract", A: []string{b[0], b[0]}}, cl,
+						{Name: "sortblocks"}, cl,
+						{Name: "dropretract", A: []string{b[0], b[1]}}, cl,
+					})
+				}
+			}
+		}
+	}
+	// exclude / replace: both spellings of one version are two entries; dropping one leaves the other
+	for _, m := range []struct{ head, p, v string }{
+		{"module example.com/m\n", "example.com/a", "v1.2.3"},
+		{"module example.com/m\n\nexclude example.com/c/v2 v2.1.0\n\nreplace example.com/c/v2 v2.1.0 => ./c\n", "example.com/c/v2", "v2.1.0"},
+	} {
+		t := edTwin(m.v)
+		for _, b := range [][2]string{{m.v, t}, {t, m.v}} {
+			run(m.head, []edOp{
+				{Name: "exclude", A: []string{m.p, b[0]}}, {Name: "exclude", A: []string{m.p, b[1]}}, cl,
+				{Name: "sortblocks"}, cl,
+				{Name: "dropexclude", A: []string{m.p, b[0]}}, cl,
+				{Name: "exclude", A: []string{m.p, b[1]}}, cl,
+			})
+			run(m.head, []edOp{
+				{Name: "replace", A: []string{m.p, b[0], "./x", ""}}, {Name: "replace", A: []string{m.p, b[1], "./y", ""}}, cl,
+				{Name: "sortblocks"}, cl,
+				{Name: "dropreplace", A: []string{m.p, b[0]}}, cl,
+				{Name: "replace", A: []string{m.p, b[1], "./z", ""}}, cl,
+			})
+		}
+	}
+	return out
+}
+
 func oracleC15(g *Gen, n int) {
 	c15RationaleSweep(g)
+	c15TwinSweep(g)
 	edOracleLoop(g, n, "c15-session", edCheckC15)
 }
